@@ -2,23 +2,24 @@
 """import a confirmed sub-agent change into /verif/seeded/<id>-<V>/ : patch.diff, demo.py, notes.md, meta.json"""
 import json, os, re, shutil, sys
 ID, V = sys.argv[1], sys.argv[2]
-src = f"/tmp/wt/out/{ID}/{V}"
+ROOT = os.environ.get("ROOT", "/tmp/wt2")
+src = f"{ROOT}/out/{ID}/{V}"
 dst = f"/verif/seeded/{ID}-{V}"
 os.makedirs(dst, exist_ok=True)
 for f in ("patch.diff", "demo.py", "notes.md"):
     shutil.copy(os.path.join(src, f), os.path.join(dst, f))
 conf = ""
-for log in sorted(os.listdir("/tmp/wt/out")):
+for log in sorted(os.listdir(f"{ROOT}/out")):
     if log.startswith("confirm") and log.endswith(".log"):
-        for ln in open(os.path.join("/tmp/wt/out", log)):
+        for ln in open(os.path.join(f"{ROOT}/out", log)):
             if ln.startswith(f"{ID}/{V} "):
                 conf = ln.strip()
 notes = open(os.path.join(src, "notes.md")).read()
 meta = {"property": ID, "variant": V,
         "files_changed": sorted(set(re.findall(r"^\+\+\+ b/(\S+)", open(os.path.join(src, "patch.diff")).read(), re.M))),
         "needs_to_manifest": " ".join(sys.argv[3:]) or "see notes.md",
-        "confirmed_by_me": {"command": f"tools/confirm_mutant.sh {ID} {V} (scratch worktree /tmp/wt/{ID}: demo on pristine, "
-                                       "git apply, /tmp/wt/run_stable_tests.sh = the 151 stable tests, demo with change)",
+        "confirmed_by_me": {"command": f"tools/confirm_mutant.sh {ID} {V} (scratch worktree {ROOT}/{ID}: demo on pristine, "
+                                       "git apply, run_stable_tests.sh = the 151 stable tests, demo with change)",
                             "result": conf},
         "detected_by": []}
 mp = os.path.join(dst, "meta.json")
